@@ -685,3 +685,25 @@ def rule_array_elements_to_text(ctx, rep, rid: str) -> None:
                 rep.bad(rid, key, f"{f.qual} converts the array element `{v}` with the plain to_string, which answers '[object Object]' for every object: a nested array or an object with its own toString is not asked for its text ([[2],[1]].sort() stays unsorted, [[1,2]].join() loses the inner elements)", f"{f.module.rel}:{c.lineno}")
     if n < 2:
         raise AnalysisError(f"{rid}: only {n} element-to-text conversion(s) found in the Array natives")
+
+
+# ---- replacement templates are read once --------------------------------------------------------------
+def rule_template_single_pass(ctx, rep, rid: str) -> None:
+    """A `$` pattern of a replace() template must not be expanded with str.replace on the template: the text put in
+    for `$&` is then read again for `$1`, a sentinel that protects `$$` can occur in the input, and a pattern the
+    call does not support is deleted or kept by accident.  GetSubstitution reads the template once, left to right."""
+    rep.rule(rid, "no runtime function expands the `$` patterns of a replacement template with str.replace passes (`t.replace('$&', m)`): substituted text would be read again as template; templates are expanded by one left-to-right scan", floor=1)
+    def dollar_passes(tree_nodes):
+        return [c for c in tree_nodes if isinstance(c, ast.Call) and isinstance(c.func, ast.Attribute) and c.func.attr == "replace" and c.args and ((isinstance(c.args[0], ast.Constant) and isinstance(c.args[0].value, str) and c.args[0].value.startswith("$")) or (isinstance(c.args[0], ast.JoinedStr) and c.args[0].values and isinstance(c.args[0].values[0], ast.Constant) and str(c.args[0].values[0].value).startswith("$")))]
+
+    ctl = ast.parse("def f(t, m):\n    t = t.replace('$$', '\\x00')\n    return t.replace(f'${1}', m)\n")
+    if len(dollar_passes(list(ast.walk(ctl)))) != 2:
+        raise AnalysisError("positive control failed: `$` replace-pass detector")
+    n = 0
+    for f in ctx.tree.funcs:
+        if isinstance(f.node, ast.Lambda) or f.module.name not in ("vm", "context", "values"):
+            continue
+        n += 1
+        for c in dollar_passes(f.own_nodes()):
+            rep.bad(rid, f"{f.qual}:{short(c, 40)}", f"{f.qual} expands a template pattern with a str.replace pass ({short(c, 50)}): text substituted by an earlier pass is read again as template, and patterns are handled in the order of the passes instead of left to right", f"{f.module.rel}:{c.lineno}")
+    rep.ok(rid, "template-expansion", {"functions_examined": n})
